@@ -259,9 +259,12 @@ def gen(tier, rng):
             if rng.random() < 0.04:
                 pos = [rng.randrange(rows), rng.randrange(cols)]
             wags.append([0, 2, pos, 1 if rng.random() < 0.5 else 0, 0])
+        share = any((e == 1 and 3 in vs) or (e == 3 and 1 in vs) for e, vs in ov)
         for _n in range(nn):
             pos = []
-            if rng.random() < 0.08:
+            if tpos and share and _n == 0 and rng.random() < 0.25:
+                pos = list(tpos)          # starts on the target's cell: done before it has acted
+            elif rng.random() < 0.08:
                 pos = [rng.randrange(rows), rng.randrange(cols)]
             wags.append([1, 3, pos, 1 if rng.random() < 0.15 else 0, rng.choice([1, 1, 2, 3, 5, -1])])
         order = rng.random()
